@@ -1171,6 +1171,11 @@ func oracleC03(r *Rng, n int, thorough bool, seeds []string) *OracleResult {
 		wg.Wait()
 	}
 	close(stop)
+	if w := runProbe("shared-encode", 60*time.Second); w != "" {
+		// read-only use of ONE decoded value from several goroutines (child process: a
+		// runtime fatal error is a crash no recover() sees)
+		sh.addFailure("crash:shared-value-read-concurrently", w, &c03Case{entry: "v4", data: [][]byte{{}}})
+	}
 
 	// merge
 	distinctObs := map[string]int{}
